@@ -49,9 +49,20 @@ def datum(rng_):
             'rng': (D(298), D(1500)) if (ts or rng_.random() < .3) else None}
 
 
+# per-molecule units: not an exact decimal multiple of the base units, so the literal is the rounded
+# conversion and the specification evaluates that literal (no "same datum" claim for this presentation)
+EV = D('23.060548')       # kcal/mol per eV/molecule, roughly
+PM_UNITS = {'molar enthalpy': [('eV/molecule', EV), ('meV/molecule', EV / 1000)],
+            'molar entropy': [('eV/molecule/K', EV * 1000), ('meV/(molecule K)', EV)],
+            'molar heat capacity': [('eV/(molecule*K)', EV * 1000), ('meV/molecule/K', EV)]}
+
+
 def present(d, mode, rng_, defaults):
     """-> yaml mapping (python) for one group's thermochem in presentation `mode`"""
     def q(val, units, kind):
+        if mode == 'permolecule' and kind in PM_UNITS:
+            u, f = rng_.choice(PM_UNITS[kind])
+            return '%s %s' % (lit((val / f).quantize(D('0.000001'))), u)
         if mode == 'default':
             u, f = [x for x in units if x[0] == defaults[kind]][0]
             v = val / f
@@ -130,7 +141,7 @@ def run(ctx):
         batch = list(range(k0, min(k0 + 8, ndata)))
         base = len(events)
         first = {}
-        for mode in ['default0', 'default1', 'default2', 'default3', 'explicit', 'explicit2', 'mixed', 'nd']:
+        for mode in ['default0', 'default1', 'default2', 'default3', 'explicit', 'explicit2', 'mixed', 'nd', 'permolecule']:
             if mode.startswith('default'):
                 defs = DEFAULT_SETS[int(mode[-1])]
                 units = dict(defs)
@@ -138,6 +149,9 @@ def run(ctx):
             elif mode.startswith('explicit'):
                 defs, units = {}, None
                 groups = {'g%d' % i: present(data[i], 'explicit', rng_, {}) for i in batch}
+            elif mode == 'permolecule':
+                defs, units = {}, None
+                groups = {'g%d' % i: present(data[i], 'permolecule', rng_, {}) for i in batch}
             elif mode == 'mixed':
                 defs = DEFAULT_SETS[rng_.randrange(4)]
                 units = dict(defs)
@@ -161,7 +175,7 @@ def run(ctx):
                     c = lib[g]['thermochem']
                     obs = ll.obs_of('value', c)
                 ev = {'doc': ll.doc_of(t), 'defs': ll.defs_of(y.get('units')), 'obs': obs}
-                if mode != 'nd':
+                if mode not in ('nd', 'permolecule'):
                     if i in first:
                         ev['same'] = first[i] - (len(events) // 400) * 400 + 1 \
                             if first[i] // 400 == len(events) // 400 else None
@@ -237,7 +251,7 @@ def run(ctx):
                                'datum %d: %s(%g) differs between presentations default0 (%s %r) and %s (%s %r)'
                                % (i, cl.GETTERS[p], T, o1, f1, mode, o2, f2))
     ctx.sample({'datum': {k: str(v) for k, v in data[1].items()},
-                'presentations': ['default units kcal|kJ|J|cal', 'explicit per value', 'mixed', 'non-dimensional']})
+                'presentations': ['default units kcal|kJ|J|cal', 'explicit per value', 'mixed', 'non-dimensional', 'eV per molecule']})
     ctx.extra['library_files'] = nfile
     ctx.extra['documents'] = len(seen)
     ctx.states += 0
